@@ -32,8 +32,10 @@ def shown(listing):
             out.append({'k': 'opr', 'c': asmlib.OPRNAME[d['c']]})
         elif d['k'] == 'imm':
             out.append({'k': 'imm', 'op': asmlib.OPNAME[d['op']], 'v': d['v']})
-        else:
+        elif d['k'] == 'ref':
             out.append({'k': 'ref', 'op': asmlib.OPNAME[d['op']], 'n': d['n']})
+        else:
+            out.append({'k': 'lab', 'n': '?malformed listing line', 'kind': ''})
     return out
 
 
